@@ -222,7 +222,7 @@ func invoke(bin string, procs int, race bool, slot int, args ...string) ([]sim.R
 					attributed = true
 				}
 			}
-			if !attributed && len(recs) > 0 {
+			if !attributed && len(recs) > 0 && (code == 0 || code == 3 || code == 66) {
 				// a report the worker did not attribute to a run (it came
 				// after the run's end, e.g. from a goroutine the call left
 				// behind): it belongs to the last run executed
@@ -268,7 +268,7 @@ func (r *runner) work(slot int) {
 			default:
 				// the process died. If the Go runtime killed it while a
 				// run was executing, that run crashed the program.
-				if m := fatalRe.FindString(stderr); m != "" && code != 2 {
+				if m := fatalRe.FindString(stderr); m != "" && code != 20 && !strings.Contains(m, "out of memory") {
 					crashed := last + 1
 					rec := r.crashRecord(crashed, m, stderr, slot)
 					r.a.add(rec)
@@ -485,6 +485,7 @@ func Check(tier, id string) int {
 	})
 	exit := 0
 	reported := 0
+	var unconfirmed []string
 	var violSamples []any
 	knownCount := 0
 	for _, c := range classes {
@@ -511,7 +512,11 @@ func Check(tier, id string) int {
 		}
 		path, min, err := minimiseAndConfirm(p, rec, bins, tier)
 		if err != nil {
-			Trouble("violation of class %q found (seed %d run %d) but %v", c, rec.Seed, rec.Run, err)
+			// a class whose replay does not reproduce is never reported as a
+			// VIOLATION; it is harness trouble unless another class of this
+			// very check has been confirmed (then that one is the verdict)
+			unconfirmed = append(unconfirmed, fmt.Sprintf("violation of class %q found (seed %d run %d) but %v", c, rec.Seed, rec.Run, err))
+			continue
 		}
 		reported++
 		exit = 1
@@ -520,6 +525,14 @@ func Check(tier, id string) int {
 		violSamples = append(violSamples, map[string]any{"violation_class": c, "msg": min.Result.Violation.Msg, "replay": path})
 	}
 
+	if len(unconfirmed) > 0 {
+		if exit == 0 {
+			Trouble("%s", strings.Join(unconfirmed, "\n"))
+		}
+		for _, u := range unconfirmed {
+			fmt.Printf("  note (not reported as a violation): %s\n", u)
+		}
+	}
 	wall := time.Since(t0).Seconds()
 	writeEvidence(p, tier, seed, a, wall, buildS, len(a.violations)-knownCount, knownCount, detPairs, violSamples)
 
